@@ -12,9 +12,8 @@ pub fn scenario(g: &mut G, ctx: &RunCtx) -> RunReport {
     let mut plan = bodyx::gen_plan(g, max);
     plan.faults.read_eintr.clear();
     plan.rereads = 0;
-    // the streaming text decoder is not a C19 subject: it legitimately looks ahead (byte order mark,
-    // incomplete multi-byte sequences)
-    plan.via_text_reader = false;
+    // the streaming text reader (only drawn for ASCII payloads, where no character is ever incomplete)
+    // is one more way to read the body: it must hand out what has arrived, too
     plan.read_timeout_ms = 3_600_000;
     if !matches!(plan.read_mode, ReadMode::Sizes(..)) {
         let (v, n) = gen::read_sizes(g);
@@ -134,7 +133,7 @@ fn oracle(plan: &BodyPlan, o: &Observed, h: &attosim::History, k: usize) -> Verd
         if let Some(ts) = t_star {
             if c.t_out > ts {
                 return violation(
-                    "read-waited-for-later-bytes",
+                    if plan.via_text_reader { "text-reader-waited-for-later-bytes" } else { "read-waited-for-later-bytes" },
                     format!(
                         "read #{} (buffer {}) entered at t={} with {} bytes handed out; {} payload bytes were deliverable at t={} but the call returned only at t={} with {:?}",
                         i, c.size, c.t_in, handed, at(ts).0, ts, c.t_out, c.res
